@@ -356,7 +356,7 @@ func (res *Response) ReadFrom(r io.Reader) (n int64, err error) {
 
 			}
 			if ok {
-				ns, err := nc.Sendfile(f, lr.N)
+				ns, err := nc.Sendfile(f, n)
 				return ns, err
 			}
 		}
